@@ -215,3 +215,19 @@ Fixpoint login_run (velocity_mode : bool) (forwarded : bool) (es : list login_ev
     let '(f', o) := login_step velocity_mode forwarded e in
     o :: match o with OutRefused => [] | _ => login_run velocity_mode f' r end   (* refused: connection closed *)
   end.
+
+(* "a backend that completes login without requesting forwarding is refused", as a predicate on an
+   observed run (forwarded = a forwarding request was answered earlier in the run) *)
+Definition beq_outcome (a b : login_outcome) : bool :=
+  match a, b with
+  | OutAnswered, OutAnswered | OutIgnored, OutIgnored | OutRefused, OutRefused | OutProceed, OutProceed => true
+  | _, _ => false
+  end.
+Fixpoint required_holds (velocity_mode forwarded : bool) (es : list login_event) (os : list login_outcome) : bool :=
+  match es, os with
+  | EvLoginSuccess :: _, o :: _ =>
+    if velocity_mode && negb forwarded then beq_outcome o OutRefused else negb (beq_outcome o OutRefused)
+  | EvPluginRequest ch :: es', o :: os' =>
+    required_holds velocity_mode (forwarded || (velocity_mode && ch && beq_outcome o OutAnswered)) es' os'
+  | _, _ => true
+  end.
